@@ -156,7 +156,7 @@ func runC18Trial(run *ev.Run, sp *c18Spec, seed int64) {
 	for _, id := range sp.Nodes {
 		m.AddNode(id)
 	}
-	plan := memnet.Plan{CtlDelayMax: time.Duration(sp.DelayMs) * time.Millisecond, CtlReorder: sp.Reorder, Type2MinWait: 2 * time.Millisecond}
+	plan := memnet.Plan{CtlDelayMax: time.Duration(sp.DelayMs) * time.Millisecond, Type2Reorder: sp.Reorder, Type2MinWait: 2 * time.Millisecond}
 	for _, l := range sp.Links {
 		li := m.Connect(l[0], l[1], 1, false)
 		li.L.SetPlan(plan)
